@@ -28,7 +28,7 @@ const (
 
 func init() {
 	register("C19", "other", "T7 Pairing, T2 Dominates (loop-aware), T4 GuardedBy (normalised loop/exit conditions), AST provenance through single-definition locals, T6 use audit",
-		"Decides the shape parent selection depends on. ChooseParents: the returned slice is one local that starts empty, receives the existing parents (parameter 0, in order, via one append of existingParents...) exactly once before anything else and on every path to return, and afterwards only single-element appends, never an indexed store; the option set is options.Set() of parameter 1 and is only erased from, sliced and measured (so it stays a subset of the offered options); every existing parent is erased from it before the first slice; each appended element is curOptions[k] (directly or through a single-definition local) where curOptions is the slice of the option set taken in the same iteration and k is the result of SearchStrategy.Choose applied to that same slice (held in a local or used in place), by the strategy of this iteration (strategies[i] of the counted loop, or the range value); the append is paired both ways with erasing the same element (no parent is repeated, no option is lost); at most one append per iteration, iterations bounded by i < len(strategies) with i counted from 0 by 1; Choose and the slice are reached only with a non-empty option set, re-established after every erase; every return is reached only over an edge saying the strategies are exhausted or the option set is empty (the loop stops early only when no options remain). MetricStrategy.Choose: the returned index is one local initialised to 0; it is assigned only the index of the loop over the options parameter (range key, or the counter of for i := 0; i < len(options); i++) and always together with the running maximum, which is assigned only the metric of the option of that same iteration (metricFn applied to the range value or options[i], possibly through a local); the update happens only on weight > max (>= accepted) or on max == 0 with an unsigned metric type, the skip only on an edge implying weight <= max; every option is evaluated (no continue/break/early return before the loop is done). RandomStrategy.Choose returns rand.Intn(len(options)); neither strategy writes through or leaks its options parameter. NOT decided: that the chosen index has maximal metric as a value fact (it follows from the decided shape for a deterministic metricFn, by the usual running-maximum invariant, but the invariant is not machine-checked), set semantics of hash.Events.Set / EventsSet.Slice / EventsSet.Erase, and behaviour of foreign SearchStrategy implementations.",
+		"Decides the shape parent selection depends on. ChooseParents: the returned slice is one local that starts empty, receives the existing parents (parameter 0, in order, via one append of existingParents...) exactly once before anything else and on every path to return, and afterwards only single-element appends, never an indexed store; the option set is options.Set() of parameter 1 and is only erased from, sliced and measured (so it stays a subset of the offered options); every existing parent is erased from it before the first slice; each appended element is curOptions[k] (directly or through a single-definition local) where curOptions is the slice of the option set taken in the same iteration and k is the result of SearchStrategy.Choose applied to that same slice (held in a local or used in place), by the strategy of this iteration (strategies[i] of the counted loop, or the range value); the append is paired both ways with erasing the same element (no parent is repeated, no option is lost); at most one append per iteration, iterations bounded by i < len(strategies) with i counted from 0 by 1; Choose and the slice are reached only with a non-empty option set, re-established after every erase; every return is reached only over an edge saying the strategies are exhausted or the option set is empty (the loop stops early only when no options remain). MetricStrategy.Choose: the returned index is one local initialised to 0; it is assigned only the index of the loop over the options parameter (range key, or the counter of for i := 0; i < len(options); i++) and always together with the running maximum, which is assigned only the metric of the option of that same iteration (the strategy's metric source — a func-valued field of the receiver called in place, or a method of a field of the receiver, declared or of a small interface — applied to the range value or options[i], possibly through a local); the update happens only on weight > max (>= accepted) or on max == 0 with an unsigned metric type, the skip only on an edge implying weight <= max; every option is evaluated (no continue/break/early return before the loop is done). RandomStrategy.Choose returns rand.Intn(len(options)); neither strategy writes through or leaks its options parameter. NOT decided: that the chosen index has maximal metric as a value fact (it follows from the decided shape for a deterministic metricFn, by the usual running-maximum invariant, but the invariant is not machine-checked), set semantics of hash.Events.Set / EventsSet.Slice / EventsSet.Erase, and behaviour of foreign SearchStrategy implementations.",
 		[]string{"hash.Events.Set, hash.EventsSet.Slice and hash.EventsSet.Erase implement set semantics (Slice lists exactly the members, Erase removes exactly its arguments)",
 			"SearchStrategy implementations return an index in [0,len(options)) and do not modify the slices passed to them (checked for the two implementations in emitter/ancestor only)",
 			"metricFn is deterministic during one Choose call"},
@@ -871,6 +871,37 @@ func c19LoopOfCounter(f *core.FuncInfo, v *types.Var) (*ast.ForStmt, bool) {
 // ---------------------------------------------------------------------------
 // MetricStrategy.Choose
 
+// c19IsMetricCall: the call evaluates the strategy's metric source: its result is a Metric and what is
+// called is held by the strategy itself, i.e. the callee expression is rooted in a field of Choose's
+// receiver: a func-valued field called in place (st.metricFn(x)) or a method of a field's value, declared
+// or of a small interface (st.source.GetMetricOf(x)). The source is identified by where it is kept, not by
+// the name of the field or method.
+func c19IsMetricCall(f *core.FuncInfo, call *ast.CallExpr) bool {
+	tv, ok := f.Info().Types[call]
+	if !ok || tv.Type == nil || f.Recv() == nil {
+		return false
+	}
+	nt, ok := tv.Type.(*types.Named)
+	if !ok || f.P.ObjName(nt.Obj()) != c19AncPkg+".Metric" {
+		return false
+	}
+	e := ast.Unparen(call.Fun)
+	nFields := 0
+	for i := 0; i < 4; i++ {
+		sel, ok := e.(*ast.SelectorExpr)
+		if !ok {
+			break
+		}
+		if s, ok := f.Info().Selections[sel]; ok && s.Kind() == types.FieldVal {
+			if strings.HasPrefix(fieldNameOf(f, sel), c19MetricStr+".") {
+				nFields++
+			}
+		}
+		e = ast.Unparen(sel.X)
+	}
+	return nFields >= 1 && varOf(f, e) != nil && varOf(f, e) == f.Recv()
+}
+
 func c19Metric(c *core.Ctx) {
 	f := c.Fn(c19MetricStr + ".Choose")
 	pOpts := f.Param(1)
@@ -933,7 +964,7 @@ func c19Metric(c *core.Ctx) {
 		}
 		// candidate: max = weight where weight is single-def metricFn(opt)
 		if d, ok := c19SingleDef(f, w); ok {
-			if call, isCall := ast.Unparen(d.RHS).(*ast.CallExpr); isCall && calleeName(f, call) == c19MetricStr+".metricFn" {
+			if call, isCall := ast.Unparen(d.RHS).(*ast.CallExpr); isCall && c19IsMetricCall(f, call) {
 				c.Need(maxV == nil || maxV == v, "one running-maximum variable")
 				c.Need(wV == nil || wV == w, "one weight variable")
 				maxV, wV = v, w
@@ -942,7 +973,7 @@ func c19Metric(c *core.Ctx) {
 		}
 	}
 	if maxV == nil {
-		c.Fail("running maximum", "T7 Pairing", f.Pos(), "no variable is assigned `weight := metricFn(option)` next to the index: the index is not tracked together with the maximum it belongs to, so later comparisons do not use the weight of the recorded option")
+		c.Fail("running maximum", "T7 Pairing", f.Pos(), "no variable is assigned the metric of an option (a call of the strategy's own metric source) next to the index: the index is not tracked together with the maximum it belongs to, so later comparisons do not use the weight of the recorded option")
 		return
 	}
 	wDef, _ := c19SingleDef(f, wV)
